@@ -245,8 +245,9 @@ def _get_action_form_arguments(left, right):
     """Perform argument contraction to work out the arguments of Action."""
     coefficients = ()
     # `left` can also be a Coefficient in V (= V**), e.g.
-    # `action(Coefficient(V), Cofunction(V.dual()))`.
-    left_args = left.arguments()[:-1] if not isinstance(left, Coefficient) else ()
+    # `action(Coefficient(V), Cofunction(V.dual()))`, or a sum of such:
+    # only base forms have arguments to contract.
+    left_args = left.arguments()[:-1] if isinstance(left, BaseForm) else ()
     if isinstance(right, BaseForm):
         arguments = left_args + right.arguments()[1:]
         coefficients += right.coefficients()
